@@ -60,3 +60,16 @@ package checkpoint
 //@   precall mkvs\.Iterator\)\.GetProof$ :: mkvs.ItErrNil(it)
 //@   precall checkpoint\.writeChunk$ :: mkvs.ItErrNil(it)
 //@   note the proof that becomes the chunk is taken, the chunk is written and success is reported only when the iterator - at the position it has then - reports no error: an iteration that stopped because a node could not be read is never mistaken for the end of the tree (the look-ahead step that determines the next chunk's offset included)
+
+// ---- parallel chunker (C12): every root - also an empty one - yields at least one chunk ----
+
+//@ func subtree.visitNext
+//@   props C12
+//@   requires s != nil
+//@   ensures err == nil && ptr != nil ==> len(s.pending) >= 1
+//@   note every non-nil pointer handed in becomes one pending atom - also a pointer with the EMPTY hash (an empty tree), whose atom carries no node and produces the empty proof
+
+//@ func newSubtree
+//@   props C12
+//@   ensures err == nil ==> result0 != nil && len(result0.pending) >= 1
+//@   note a fresh subtree has a pending atom, for an empty root too: a subtree that starts out finished produces NO chunk when the chunker runs with two or more threads - a checkpoint with zero chunks does not validate and can never be restored to completion (seed C12_i treated "empty hash" like "no pointer")
